@@ -1,5 +1,6 @@
 import PdeVerif.Model.Expr
 import PdeVerif.Lemmas.Basic
+import PdeVerif.Lemmas.ExprField
 import Mathlib.Data.List.Perm.Basic
 import Mathlib.Analysis.Calculus.Deriv.Mul
 import Mathlib.Analysis.Calculus.Deriv.Pow
@@ -263,15 +264,16 @@ theorem heaviside_zero (h : K) : heaviside (0 : K) h = h := by
   simp [heaviside]
 
 /-- `heaviside(x)` is `heaviside(x, 1/2)`; the second argument is the value exactly at 0 -/
-theorem heaviside_semantics (T : FunTab K) (env : Env K) (a h : Expr) :
+theorem heaviside_semantics (T : FunTab K) (hT : T.heav = heaviside) (env : Env K) (a h : Expr) :
     eval T env (.heav1 a) = eval T env (.heav2 a (.num (1/2))) ∧
     (eval T env a < 0 → eval T env (.heav2 a h) = 0) ∧
     (0 < eval T env a → eval T env (.heav2 a h) = 1) ∧
     (eval T env a = 0 → eval T env (.heav2 a h) = eval T env h) ∧
     (eval T env a = 0 → eval T env (.heav1 a) = 1 / 2) := by
-  refine ⟨by simp [eval], fun hx => by simp [eval, heaviside_neg _ hx],
-    fun hx => by simp [eval, heaviside_pos _ hx], fun hx => by simp [eval, hx, heaviside_zero],
-    fun hx => by simp [eval, hx, heaviside_zero]⟩
+  refine ⟨by simp [eval], fun hx => by simp [eval, hT, heaviside_neg _ hx],
+    fun hx => by simp [eval, hT, heaviside_pos _ hx],
+    fun hx => by simp [eval, hT, hx, heaviside_zero],
+    fun hx => by simp [eval, hT, hx, heaviside_zero]⟩
 
 /-- `(a > b)` and `heaviside(a - b, h)` agree away from the jump (the two spellings the
 documentation offers for a step profile) -/
@@ -309,6 +311,29 @@ theorem eval_elementwise (T : FunTab K) (e : Expr) (envs : List (Env K)) (i : Na
     (evalPoints T e envs)[i]? = (envs[i]?).map (fun env => eval T env e) := by
   simp [evalPoints]
 
+
+/-- array arguments: the same evaluator run on whole arrays (the number type of fields with
+pointwise arithmetic and a pointwise table) computes, at every position, the value of the
+formula at that position's arguments - numpy's elementwise semantics -/
+theorem eval_pointwise {ι : Type} (T : FunTab K) (envs : ι → Env K) (e : Expr) (i : ι) :
+    (eval (liftTab T) (liftEnv envs) e).val i = eval T (envs i) e := by
+  induction e with
+  | num q => simp [eval]
+  | var x => simp [eval, liftEnv]
+  | idx x k => simp [eval, liftEnv]
+  | named c => simp [eval]
+  | neg a iha => simp [eval, iha]
+  | add a b iha ihb => simp [eval, iha, ihb]
+  | sub a b iha ihb => simp [eval, iha, ihb]
+  | mul a b iha ihb => simp [eval, iha, ihb]
+  | div a b iha ihb => simp [eval, iha, ihb]
+  | powI a n iha => simp [eval, iha]
+  | call1 f a iha => simp [eval, iha]
+  | call2 f a b iha ihb => simp [eval, iha, ihb]
+  | heav1 a iha => simp [eval, iha]
+  | heav2 a h iha ihh => simp [eval, iha, ihh]
+  | cmp op a b iha ihb => simp [eval, iha, ihb]
+
 /-- component `i` of `derivatives` is the derivative with respect to the `i`-th variable -/
 theorem gradient_componentwise (vars : List String) (e : Expr) (i : Nat) :
     (gradient vars e)[i]? = (vars[i]?).map (fun x => diff x e) := by
@@ -340,6 +365,8 @@ example : eval (algTab : FunTab ℚ) defaultEnv (.add (.heav1 (.num 0)) (.heav2 
 
 /-- function table over the reals -/
 noncomputable def realTab : FunTab ℝ where
+  heav := heaviside
+  cmp := cmpVal
   f0 := fun c => if c = "pi" then Real.pi else if c = "E" then Real.exp 1 else 0
   f1 := fun f x =>
     if f = "sin" then Real.sin x else if f = "cos" then Real.cos x
